@@ -15,7 +15,9 @@ RULE = ("cases: `eval <sigversion> <flags> <script> <oracle bits> <weight> <init
         "opcodes in executed and unexecuted branches, CHECKSIG/CHECKMULTISIG with well-formed and defective DER signatures and "
         "public keys under every encoding flag, NULLDUMMY/NULLFAIL, FindAndDelete/CODESEPARATOR, CLTV/CSV operands, tapscript "
         "CHECKSIGADD / validation weight 49/50 / MINIMALIF), random opcode soup and random bytes; every vector of "
-        "src/test/data/script_tests.json replayed as scriptSig-then-scriptPubKey evaluation under several oracles; plus direct "
+        "src/test/data/script_tests.json replayed as scriptSig-then-scriptPubKey evaluation under several oracles and through the "
+        "whole VerifyScript (P2SH, witness v0, CLEANSTACK; taproot templates skipped); CHECKMULTISIG key/signature matching for "
+        "every key count 0..21 with the oracle deciding each pair; plus direct "
         "CScriptNum / CastToBool / FindAndDelete / CheckSignatureEncoding cases. Non-trivial = an eval case whose script has at "
         "least two instructions; distinct = distinct case lines.")
 ASSUMPTIONS = ["hash functions are parameters of the model (Section variables); the limits theorem assumes only their output lengths (20/32 bytes)",
@@ -296,6 +298,34 @@ def gen_sigs(rng, B, tier):
     return c
 
 
+def gen_multisig_clean(rng, B, tier):
+    """CHECKMULTISIG key/signature matching with undecorated byte strings (no encoding flags), so that the oracle alone
+    decides which signature matches which key: every nKeys 0..20(21), nSigs 0..nKeys(+1), NULLDUMMY / NULLFAIL on and off"""
+    c = []
+    safe = [B["NULLFAIL"], B["NULLDUMMY"], B["MINIMALDATA"], B["CONST_SCRIPTCODE"], B["P2SH"], B["CLEANSTACK"], B["DISCOURAGE_UPGRADABLE_NOPS"]]
+    n = 1200 if tier == "quick" else 30000
+    for _ in range(n):
+        nk = rng.choice([0, 1, 2, 3, 4, 5, 7, 19, 20, 20, 21])
+        ns = rng.choice([0, 1, 2, 3, nk, max(0, nk - 1), nk + 1])
+        keys = [bytes([rng.randrange(1, 256), i]) for i in range(nk)]
+        sigs = [rng.choice([bytes([rng.randrange(1, 256), 0x40 + i]), b""]) if rng.random() < 0.85 else b"" for i in range(ns)]
+        fl = 0
+        for b in safe:
+            if rng.random() < 0.4:
+                fl |= 1 << b
+        dummy = rng.choice([b"", b"", b"", b"\x00", b"\x01"])
+        verify = rng.random() < 0.25
+        body = push_int(ns) + b"".join(push(k) for k in keys) + push_int(nk) + op("CHECKMULTISIGVERIFY" if verify else "CHECKMULTISIG")
+        pad = op("NOP") * rng.choice([0, 0, 0, 200 - nk - 1, 200 - nk, 201 - nk, 150])
+        post = rng.choice([b"", op("1") if verify else b"", op("DEPTH"), op("NOT")])
+        sv = rng.choice([0, 0, 1])
+        ob = rng.choice([0, 0xffffffff, rng.getrandbits(32), rng.getrandbits(32) | rng.getrandbits(32), rng.getrandbits(32) & rng.getrandbits(32)])
+        c.append(ev(sv, fl, pad + body + post, ob, 0, stack=[b"\x09", dummy] + sigs))
+        if rng.random() < 0.1:
+            c.append(ev(sv, fl, pad + body + post, ob, 0, stack=sigs))          # no dummy element
+    return c
+
+
 def gen_soup(rng, B, tier):
     c = []
     n = 2500 if tier == "quick" else 80000
@@ -325,6 +355,15 @@ def gen_json(rng, B, tier):
     for (wit, ssig, spk, fl, exp) in G.json_vectors():
         for ob in (0xffffffff, 0, rng.getrandbits(32)):
             c.append("evalpair %d %s %s %d" % (fl, hx(ssig), hx(spk), ob))
+        # the whole VerifyScript (P2SH, witness v0, CLEANSTACK ...) under the vector's flags; taproot is outside the model
+        vf = fl
+        if vf >> B["CLEANSTACK"] & 1:
+            vf |= (1 << B["P2SH"]) | (1 << B["WITNESS"])
+        if vf >> B["WITNESS"] & 1:
+            vf |= 1 << B["P2SH"]
+        if len(spk) == 34 and spk[0] == 0x51 and spk[1] == 0x20:
+            vf &= ~(1 << B["TAPROOT"])
+        c.append("verify %d %s %s %d %d%s" % (vf, hx(ssig), hx(spk), rng.choice([0, 0xffffffff]), len(wit), "".join(" " + hx(e) for e in wit)))
         for w in wit[-1:]:
             # the witness script of P2WSH vectors, run as witness v0 on the rest of the witness stack
             c.append(ev(1, fl, w, rng.choice([0, 0xffffffff]), 0, stack=wit[:-1]))
@@ -334,7 +373,7 @@ def gen_json(rng, B, tier):
 def gen(rng, tier):
     B = G.flag_bits()
     c = []
-    for g in (gen_limits, gen_numbers, gen_stackops, gen_flow, gen_sigs, gen_soup, gen_json):
+    for g in (gen_limits, gen_numbers, gen_stackops, gen_flow, gen_sigs, gen_multisig_clean, gen_soup, gen_json):
         c += g(rng, B, tier)
     return c
 
@@ -361,7 +400,7 @@ def shrink(case):
 
 def nontrivial(c):
     w = c.split(" ")
-    return w[0] in ("eval", "evalpair") and len(w[3]) >= 4
+    return w[0] in ("eval", "evalpair", "verify") and len(w[3]) >= 4
 
 
 TIES = [Tie("evalscript_fn", "tie/drivers/script_drv.cpp", "Extract_Script.v", "script_driver.ml", gen,
@@ -371,8 +410,10 @@ LEVEL_TEXT = ("Coq theorems about an executable Gallina transcription of EvalScr
               "checks delegated to an arbitrary checker function): CScriptNum encode/decode round trip, uniqueness of the minimal encoding, "
               "4-byte operand range and 5-byte results; totality (every script yields Ok or a named error); the resource invariant "
               "(stack+altstack <= 1000, elements <= 520 bytes, opcount <= 201) on every state of every successful run; unbalanced "
-              "conditionals rejected; disabled opcodes fail in unexecuted branches while other opcodes there are skipped; per-opcode "
-              "stack-effect lemmas. The model is tied to the real EvalScript by differential execution (result, error name, final stack, "
+              "conditionals rejected; disabled opcodes fail in unexecuted branches while other opcodes there are skipped; the "
+              "ConditionStack pair (size, first false) implements a stack of booleans; per-opcode stack-effect lemmas (stack ops, PICK/ROLL, "
+              "arithmetic, WITHIN); CHECKMULTISIG's loop succeeds exactly when the signatures match, in order, distinct keys in order; VerifyScript rules (P2SH/SIGPUSHONLY need a push-only scriptSig, CLEANSTACK leaves one true element, native "
+              "witness programs need an empty scriptSig); the opcode table agrees with the compiled tree. The model is tied to the real EvalScript by differential execution (result, error name, final stack, "
               "validation weight, codeseparator position) on grammar-generated scripts at every limit and on script_tests.json.")
 LEVEL_NOTE = ("Trusted: Coq kernel, dump_params.cpp + tie/params/script.h, extraction + driver glue, the OCaml hash functions. "
               "Modelled: every opcode EvalScript handles (pushes, flow control, stack, arithmetic, hashes via parameters, CODESEPARATOR, "
